@@ -235,6 +235,12 @@ func (e *Env) attrValue(r *rand.Rand, el, key string) string {
 	case "crossorigin":
 		return gen.Pick(r, []string{"anonymous", "use-credentials", "", "ANONYMOUS", "x"})
 	}
+	if r.Intn(5) == 0 {
+		// a keyword HTML itself defines for this attribute
+		if v, ok := gen.WellKnownAttrValue(r, asciiLowerStr(key)); ok {
+			return v
+		}
+	}
 	rules := e.Spec.RulesLenient(el, key)
 	if len(rules) > 0 && r.Intn(5) > 0 {
 		ru := rules[r.Intn(len(rules))]
@@ -295,6 +301,18 @@ func (e *Env) deepDocOpts(noise int) gen.DocOpts {
 // HostileInput draws one input: a noisy generated document (70%), a corpus
 // mutant (25%) or a verbatim corpus entry (5%).
 func (e *Env) HostileInput(r *rand.Rand) string {
+	if r.Intn(500) == 0 {
+		// a large document: thousands of tokens (count- and offset-dependent code paths)
+		var b strings.Builder
+		for n := 50 + r.Intn(120); n > 0; n-- {
+			b.WriteString(e.hostileInput(r))
+		}
+		return b.String()
+	}
+	return e.hostileInput(r)
+}
+
+func (e *Env) hostileInput(r *rand.Rand) string {
 	switch k := r.Intn(20); {
 	case k < 14:
 		o := e.DocOpts(1+r.Intn(3), true)
@@ -340,4 +358,14 @@ func SanitizeVia(p *bluemonday.Policy, in string, k int) string {
 		}
 		return b.String()
 	}
+}
+
+func asciiLowerStr(s string) string {
+	b := []byte(s)
+	for i, c := range b {
+		if c >= 'A' && c <= 'Z' {
+			b[i] = c + 32
+		}
+	}
+	return string(b)
 }
